@@ -84,6 +84,7 @@ fn c03_diff_long() {
 		(Err(_), None) => {}
 	}
 	std::mem::forget(r);
+	kani::cover!(true, "end of harness reached");
 }
 
 // Reachability twin: must come back VIOLATED (the runner treats SUCCESS here as a broken check)
@@ -99,6 +100,7 @@ fn twin_dec_long() {
 	let (r, used) = de_slice::<i64>(&nodes::LONG, &data[..len]);
 	assert!(!(r.is_ok() && used == 10), "twin: reached end of harness with a 10-byte varint");
 	std::mem::forget(r);
+	kani::cover!(true, "end of harness reached");
 }
 
 // @harness props=C03,C04,C01 tier=quick timeout=900
@@ -122,6 +124,7 @@ fn c03_diff_int() {
 		(Err(_), None) => {}
 	}
 	std::mem::forget(r);
+	kani::cover!(true, "end of harness reached");
 }
 
 fn logical32(node: &'static SchemaNode<'static>) {
@@ -158,6 +161,7 @@ fn c03_dec_logical_int_long() {
 	logical64(&nodes::TIME_MICROS);
 	logical64(&nodes::TS_MILLIS);
 	logical64(&nodes::TS_MICROS);
+	kani::cover!(true, "end of harness reached");
 }
 
 // @harness props=C03,C01 tier=quick timeout=600
@@ -196,6 +200,7 @@ fn c03_dec_fixed_width() {
 	let (r, used) = de_slice::<()>(&nodes::NULL, &[]);
 	assert!(r.is_ok() && used == 0, "c03_dec_null: null must decode from zero bytes");
 	std::mem::forget(r);
+	kani::cover!(true, "end of harness reached");
 }
 
 // @harness props=C03,C04,C01 tier=quick timeout=900
@@ -223,6 +228,7 @@ fn c03_diff_bytes() {
 		(Err(_), None) => {}
 	}
 	std::mem::forget(r);
+	kani::cover!(true, "end of harness reached");
 }
 
 // @harness props=C03 also=C01 tier=quick timeout=900
@@ -252,6 +258,7 @@ fn c03_dec_string_borrowed() {
 		Err(_) => assert!(false, "c03_dec_string: valid UTF-8 string rejected"),
 	}
 	std::mem::forget(r);
+	kani::cover!(true, "end of harness reached");
 }
 
 // @harness props=C03 tier=quick timeout=900
@@ -273,6 +280,7 @@ fn c03_bad_utf8() {
 	kani::cover!(n == 3 && content[0] == 0xED);
 	assert!(r.is_err(), "c03_bad_utf8: ill-formed UTF-8 accepted as string");
 	std::mem::forget(r);
+	kani::cover!(true, "end of harness reached");
 }
 
 // @harness props=C03,C04 also=C01 tier=quick timeout=900
@@ -300,6 +308,7 @@ fn c03_diff_string() {
 		(Err(_), None) => {}
 	}
 	std::mem::forget(r);
+	kani::cover!(true, "end of harness reached");
 }
 
 // @harness props=C03 also=C01 tier=quick timeout=600
@@ -319,6 +328,7 @@ fn c03_dec_fixed() {
 		Err(_) => assert!(len < 3, "c03_dec_fixed: valid encoding rejected"),
 	}
 	std::mem::forget(r);
+	kani::cover!(true, "end of harness reached");
 }
 
 // @harness props=C03 also=C01 tier=quick timeout=600
@@ -340,6 +350,7 @@ fn c03_dec_duration_tuple() {
 		Err(_) => assert!(len < 12, "c03_dec_duration: tuple rejected"),
 	}
 	std::mem::forget(r);
+	kani::cover!(true, "end of harness reached");
 }
 
 // @harness props=C03,C01 tier=quick timeout=600
@@ -365,6 +376,7 @@ fn c03_dec_duration_struct_bytes() {
 		Err(_) => assert!(false, "c03_dec_duration: raw bytes rejected"),
 	}
 	std::mem::forget(r);
+	kani::cover!(true, "end of harness reached");
 }
 
 // @harness props=C03,C04 also=C01 tier=quick timeout=900
@@ -389,6 +401,7 @@ fn c03_diff_decimal_bytes() {
 		(Err(_), None) => {}
 	}
 	std::mem::forget(r);
+	kani::cover!(true, "end of harness reached");
 }
 
 // @harness props=C03 also=C01 tier=thorough timeout=1800
@@ -415,6 +428,7 @@ fn c03_dec_decimal_bytes_16() {
 		Err(_) => assert!(n == 17, "c03_dec_decimal_bytes: valid decimal rejected"),
 	}
 	std::mem::forget(r);
+	kani::cover!(true, "end of harness reached");
 }
 
 fn dec_fixed_case(n: usize, node: &'static SchemaNode<'static>) {
@@ -439,6 +453,7 @@ fn c03_dec_decimal_fixed_small() {
 	dec_fixed_case(0, d0);
 	dec_fixed_case(1, d1);
 	dec_fixed_case(2, d2);
+	kani::cover!(true, "end of harness reached");
 }
 
 // @harness props=C03 also=C01 tier=quick timeout=900
@@ -451,6 +466,7 @@ fn c03_dec_decimal_fixed_16_17() {
 	crate::verif::stack_node!(d17 = nodes::dec_fixed(17, 0));
 	dec_fixed_case(16, d16);
 	dec_fixed_case(17, d17);
+	kani::cover!(true, "end of harness reached");
 }
 
 // @harness props=C03 also=C01 tier=thorough timeout=2400
@@ -486,6 +502,7 @@ fn c03_dec_bigdecimal() {
 		Err(_) => assert!(delta != 0, "c03_dec_bigdecimal: valid big-decimal rejected"),
 	}
 	std::mem::forget(r);
+	kani::cover!(true, "end of harness reached");
 }
 
 // @harness props=C03,C01 tier=quick timeout=900
@@ -514,6 +531,7 @@ fn c03_dec_enum() {
 		Err(_) => assert!(idx < 0 || idx >= 3, "c03_dec_enum: valid enum index rejected"),
 	}
 	std::mem::forget(r);
+	kani::cover!(true, "end of harness reached");
 }
 
 /// reference decode of array<long> into at most 3 items; None = invalid; `over` = more than 3 items.
@@ -588,6 +606,7 @@ fn c03_diff_array_long() {
 		(Err(_), None) => {}
 	}
 	std::mem::forget(r);
+	kani::cover!(true, "end of harness reached");
 }
 
 // Unions. A full decode through a union makes the branch node pointer depend on the input and CBMC then
@@ -636,6 +655,7 @@ fn c03_union_discriminant() {
 	union_discriminant_case::<2>(u2, [&nodes::NULL, &nodes::LONG]);
 	crate::verif::union_node_de!(u3 = [&nodes::STRING, &nodes::NULL, &nodes::DOUBLE]);
 	union_discriminant_case::<3>(u3, [&nodes::STRING, &nodes::NULL, &nodes::DOUBLE]);
+	kani::cover!(true, "end of harness reached");
 }
 
 // =============================================================================================
@@ -693,6 +713,7 @@ fn c04_array_null_max_seq_size() {
 		(Err(_), None) => {}
 	}
 	std::mem::forget(r);
+	kani::cover!(true, "end of harness reached");
 }
 
 fn depth_case(p: &'static SchemaNode<'static>, depth: usize, allowed: usize) {
@@ -732,6 +753,7 @@ fn c04_depth_limit() {
 		depth_case(p, 3, allowed);
 		allowed += 1;
 	}
+	kani::cover!(true, "end of harness reached");
 }
 
 // @harness props=C04,C11 tier=quick timeout=1200
@@ -772,6 +794,7 @@ fn c04_reader_max_alloc() {
 	}
 	std::mem::forget(r);
 	std::mem::forget(st);
+	kani::cover!(true, "end of harness reached");
 }
 
 // =============================================================================================
@@ -805,6 +828,7 @@ fn c11_sv_long_int() {
 	kani::assume(chunk >= 1 && chunk <= 11);
 	sv_scalar::<i64>(&nodes::LONG, &data[..len], chunk);
 	sv_scalar::<i32>(&nodes::INT, &data[..len], chunk);
+	kani::cover!(true, "end of harness reached");
 }
 
 // @harness props=C11 tier=thorough timeout=3600
@@ -830,6 +854,7 @@ fn c11_sv_fixed_width() {
 	std::mem::forget(b);
 	sv_scalar::<DurTuple>(&nodes::DURATION, s, chunk);
 	sv_scalar::<bool>(&nodes::BOOLEAN, s, chunk);
+	kani::cover!(true, "end of harness reached");
 }
 
 impl<const N: usize> PartialEq for OBytes<N> {
@@ -882,6 +907,7 @@ fn c11_sv_bytes_string() {
 	kani::assume(chunk >= 1 && chunk <= 6);
 	sv_scalar::<OBytes<6>>(&nodes::BYTES, &data[..len], chunk);
 	sv_scalar::<OStr<6>>(&nodes::STRING, &data[..len], chunk);
+	kani::cover!(true, "end of harness reached");
 }
 
 // @harness props=C11 tier=thorough timeout=3600
@@ -897,6 +923,7 @@ fn c11_sv_array_long() {
 	let chunk: usize = kani::any();
 	kani::assume(chunk >= 1 && chunk <= 5);
 	sv_scalar::<Seq<i64, 5>>(arr, &data[..len], chunk);
+	kani::cover!(true, "end of harness reached");
 }
 
 // @harness props=C11 tier=thorough timeout=3600
@@ -914,6 +941,7 @@ fn c11_sv_decimal_fixed() {
 	kani::assume(chunk >= 1 && chunk <= 6);
 	sv_scalar::<I128Hint>(dn, &data[..len], chunk);
 	sv_scalar::<OBytes<3>>(f3, &data[..len], chunk);
+	kani::cover!(true, "end of harness reached");
 }
 
 // =============================================================================================
@@ -948,6 +976,7 @@ fn c12_skip_varints() {
 	// an int varint longer than 5 bytes is not something a writer emits (and the u32 skip path may refuse it)
 	skip_vs_read::<i32>(&nodes::INT, s, canonical32);
 	skip_vs_read::<OStr<2>>(en, s, true);
+	kani::cover!(true, "end of harness reached");
 }
 
 // @harness props=C12 tier=quick timeout=1200
@@ -968,6 +997,7 @@ fn c12_skip_logical() {
 	skip_vs_read::<i64>(&nodes::TIME_MICROS, s, true);
 	skip_vs_read::<i64>(&nodes::TS_MILLIS, s, true);
 	skip_vs_read::<i64>(&nodes::TS_MICROS, s, true);
+	kani::cover!(true, "end of harness reached");
 }
 
 // @harness props=C12 tier=thorough timeout=7200
@@ -981,6 +1011,7 @@ fn c12_skip_decimal_fixed2() {
 	let len: usize = kani::any();
 	kani::assume(len <= 3);
 	skip_vs_read::<I128Hint>(d2, &data[..len], true);
+	kani::cover!(true, "end of harness reached");
 }
 
 // @harness props=C12 tier=thorough timeout=3600
@@ -999,6 +1030,7 @@ fn c12_skip_decimal() {
 	skip_vs_read::<I128Hint>(db, s, true);
 	skip_vs_read::<I128Hint>(d2, s, true);
 	skip_vs_read::<I128Hint>(d4, s, true);
+	kani::cover!(true, "end of harness reached");
 }
 
 // @harness props=C12 tier=quick timeout=1200
@@ -1014,6 +1046,7 @@ fn c12_skip_bytes_string() {
 	let s = &data[..len];
 	skip_vs_read::<BBytes>(&nodes::BYTES, s, true);
 	skip_vs_read::<BStr>(&nodes::STRING, s, true);
+	kani::cover!(true, "end of harness reached");
 }
 
 // @harness props=C12 tier=quick timeout=1200
@@ -1031,6 +1064,7 @@ fn c12_skip_fixed_width() {
 	skip_vs_read::<DurTuple>(&nodes::DURATION, s, true);
 	skip_vs_read::<f64>(&nodes::DOUBLE, s, true);
 	skip_vs_read::<bool>(&nodes::BOOLEAN, s, true);
+	kani::cover!(true, "end of harness reached");
 }
 
 fn skip_array_case(arr: &'static SchemaNode<'static>, s: &[u8]) {
@@ -1055,6 +1089,7 @@ fn c12_skip_array_pos() {
 	let w: u8 = kani::any();
 	kani::assume(w >= 0x80);
 	skip_array_case(arr, &[4, v[0], v[1], 0]);
+	kani::cover!(true, "end of harness reached");
 }
 
 // @harness props=C12 tier=quick timeout=1800
@@ -1069,6 +1104,7 @@ fn c12_skip_array_neg() {
 	let w: u8 = kani::any();
 	kani::assume(w >= 0x80);
 	skip_array_case(arr, &[3, 4, v[0], v[1], 0]);
+	kani::cover!(true, "end of harness reached");
 }
 
 // @harness props=C12 tier=thorough timeout=3600
@@ -1083,6 +1119,7 @@ fn c12_skip_array_neg_pos() {
 	let w: u8 = kani::any();
 	kani::assume(w >= 0x80);
 	skip_array_case(arr, &[1, 4, w, v[0], 2, v[1], 0]);
+	kani::cover!(true, "end of harness reached");
 }
 
 // @harness props=C12 tier=quick timeout=1800
@@ -1097,6 +1134,7 @@ fn c12_skip_array_neg_neg() {
 	let w: u8 = kani::any();
 	kani::assume(w >= 0x80);
 	skip_array_case(arr, &[1, 2, v[0], 3, 4, v[1], v[2], 0]);
+	kani::cover!(true, "end of harness reached");
 }
 
 
@@ -1142,6 +1180,7 @@ fn c02_union_names_null_long() {
 	crate::verif::union_node!(u = [&nodes::NULL, &nodes::LONG]);
 	name_roundtrip(u, 0, &nodes::NULL);
 	name_roundtrip(u, 1, &nodes::LONG);
+	kani::cover!(true, "end of harness reached");
 }
 
 // @harness props=C02 also=C01 tier=thorough timeout=1800
@@ -1153,6 +1192,7 @@ fn c02_union_names_boolean_int() {
 	crate::verif::union_node!(u = [&nodes::BOOLEAN, &nodes::INT]);
 	name_roundtrip(u, 0, &nodes::BOOLEAN);
 	name_roundtrip(u, 1, &nodes::INT);
+	kani::cover!(true, "end of harness reached");
 }
 
 // @harness props=C02 also=C01 tier=thorough timeout=1800
@@ -1164,6 +1204,7 @@ fn c02_union_names_float_double() {
 	crate::verif::union_node!(u = [&nodes::FLOAT, &nodes::DOUBLE]);
 	name_roundtrip(u, 0, &nodes::FLOAT);
 	name_roundtrip(u, 1, &nodes::DOUBLE);
+	kani::cover!(true, "end of harness reached");
 }
 
 // @harness props=C02 also=C01 tier=quick timeout=1800
@@ -1175,6 +1216,7 @@ fn c02_union_names_bytes_string() {
 	crate::verif::union_node!(u = [&nodes::BYTES, &nodes::STRING]);
 	name_roundtrip(u, 0, &nodes::BYTES);
 	name_roundtrip(u, 1, &nodes::STRING);
+	kani::cover!(true, "end of harness reached");
 }
 
 // @harness props=C02 also=C01 tier=thorough timeout=1800
@@ -1186,6 +1228,7 @@ fn c02_union_names_uuid_date() {
 	crate::verif::union_node!(u = [&nodes::UUID, &nodes::DATE]);
 	name_roundtrip(u, 0, &nodes::UUID);
 	name_roundtrip(u, 1, &nodes::DATE);
+	kani::cover!(true, "end of harness reached");
 }
 
 // @harness props=C02 also=C01 tier=thorough timeout=1800
@@ -1197,6 +1240,7 @@ fn c02_union_names_timemillis_timemicros() {
 	crate::verif::union_node!(u = [&nodes::TIME_MILLIS, &nodes::TIME_MICROS]);
 	name_roundtrip(u, 0, &nodes::TIME_MILLIS);
 	name_roundtrip(u, 1, &nodes::TIME_MICROS);
+	kani::cover!(true, "end of harness reached");
 }
 
 // @harness props=C02 also=C01 tier=thorough timeout=1800
@@ -1208,6 +1252,7 @@ fn c02_union_names_tsmillis_tsmicros() {
 	crate::verif::union_node!(u = [&nodes::TS_MILLIS, &nodes::TS_MICROS]);
 	name_roundtrip(u, 0, &nodes::TS_MILLIS);
 	name_roundtrip(u, 1, &nodes::TS_MICROS);
+	kani::cover!(true, "end of harness reached");
 }
 
 // @harness props=C02 also=C01 tier=thorough timeout=1800
@@ -1219,6 +1264,7 @@ fn c02_union_names_bigdecimal_null() {
 	crate::verif::union_node!(u = [&nodes::BIG_DECIMAL, &nodes::NULL]);
 	name_roundtrip(u, 0, &nodes::BIG_DECIMAL);
 	name_roundtrip(u, 1, &nodes::NULL);
+	kani::cover!(true, "end of harness reached");
 }
 
 // @harness props=C02 also=C01 tier=quick timeout=1800 finding=F5
@@ -1231,6 +1277,7 @@ fn c02_union_names_duration() {
 	crate::verif::union_node!(u = [m, &nodes::DURATION]);
 	name_roundtrip(u, 0, m);
 	name_roundtrip(u, 1, &nodes::DURATION);
+	kani::cover!(true, "end of harness reached");
 }
 
 // @harness props=C02 also=C01 tier=thorough timeout=1800
@@ -1244,6 +1291,7 @@ fn c02_union_names_array_decimal() {
 	crate::verif::union_node!(u = [a, d]);
 	name_roundtrip(u, 0, a);
 	name_roundtrip(u, 1, d);
+	kani::cover!(true, "end of harness reached");
 }
 
 // @harness props=C02 also=C01 tier=off timeout=1800
@@ -1257,6 +1305,7 @@ fn c02_union_names_enum_fixed() {
 	crate::verif::union_node!(u = [e, f]);
 	name_roundtrip(u, 0, e);
 	name_roundtrip(u, 1, f);
+	kani::cover!(true, "end of harness reached");
 }
 
 // @harness props=C02 also=C01 tier=thorough timeout=1800
@@ -1269,6 +1318,7 @@ fn c02_union_names_record_decfixed() {
 	crate::verif::union_node!(u = [&nodes::NULL, r]);
 	name_roundtrip(u, 0, &nodes::NULL);
 	name_roundtrip(u, 1, r);
+	kani::cover!(true, "end of harness reached");
 }
 
 // =============================================================================================
@@ -1315,6 +1365,7 @@ fn c01_rt_floats_bool() {
 		Err(_) => assert!(false, "c01_rt_bool: own output rejected"),
 	}
 	std::mem::forget(b);
+	kani::cover!(true, "end of harness reached");
 }
 
 // @harness props=C01 tier=quick timeout=900
@@ -1354,6 +1405,7 @@ fn c01_rt_bytes_fixed() {
 		Err(_) => assert!(false, "c01_rt_fixed: own output rejected"),
 	}
 	std::mem::forget(b);
+	kani::cover!(true, "end of harness reached");
 }
 
 // @harness props=C01 tier=thorough timeout=1800
@@ -1372,6 +1424,7 @@ fn c01_rt_duration() {
 		Err(_) => assert!(false, "c01_rt_duration: own output rejected"),
 	}
 	std::mem::forget(b);
+	kani::cover!(true, "end of harness reached");
 }
 
 // @harness props=C01 tier=quick timeout=900
@@ -1399,4 +1452,49 @@ fn c01_rt_enum() {
 		Err(_) => assert!(false, "c01_rt_enum: own output rejected"),
 	}
 	std::mem::forget(b);
+	kani::cover!(true, "end of harness reached");
+}
+
+fn block_count_extreme_case(first: [u8; 10]) {
+	crate::verif::stack_node!(arr = nodes::array_of(&nodes::LONG));
+	let tail: u8 = kani::any();
+	let tl: usize = kani::any();
+	kani::assume(tl <= 1);
+	let mut data = [0u8; 11];
+	let mut i = 0;
+	while i < 10 {
+		data[i] = first[i];
+		i += 1;
+	}
+	data[10] = tail;
+	let (r, _) = de_slice_cfg::<Seq<i64, 3>>(arr, &data[..10 + tl], 1_000_000_000, 64);
+	assert!(r.is_err(), "c04: array with an astronomically large block count decoded from 11 bytes");
+	std::mem::forget(r);
+}
+
+// @harness props=C04,C03 tier=quick timeout=1200
+// @bound array<long> whose first block count is i64::MIN (10-byte varint ff*9 01: the count whose negation overflows) followed by 0..=1 symbolic byte: no panic / overflow, and never Ok
+#[kani::proof]
+#[kani::unwind(13)]
+#[kani::stub(alloc::fmt::format, crate::verif::stub_format)]
+fn c04_block_count_i64_min() {
+	let mut first = [0xffu8; 10];
+	first[9] = 0x01;
+	block_count_extreme_case(first);
+	kani::cover!(true, "end of harness reached");
+}
+
+// @harness props=C04,C03 tier=thorough timeout=3600
+// @bound same for the counts i64::MAX (fe ff*8 01) and i64::MIN+1 (fd ff*8 01)
+#[kani::proof]
+#[kani::unwind(13)]
+#[kani::stub(alloc::fmt::format, crate::verif::stub_format)]
+fn c04_block_count_extremes() {
+	let mut first = [0xffu8; 10];
+	first[9] = 0x01;
+	first[0] = 0xfe;
+	block_count_extreme_case(first);
+	first[0] = 0xfd;
+	block_count_extreme_case(first);
+	kani::cover!(true, "end of harness reached");
 }
